@@ -1187,3 +1187,581 @@ func tgDebug(c *engine.Ctx) {
 		fmt.Printf("    [%v] %s | %s | %s\n", o.OK, o.ID(), o.Where, o.Detail)
 	}
 }
+
+// ---------------------------------------------------------------------------
+// Parallel arrays (tgPar*): several array fields of a node type are indexed
+// by the same slot number (InnerNode: childNodes/children/childHashes/
+// childSizes; LeafNode: keys/valueHashes/valueKeys). Whatever moves, clears
+// or copies one of them must do the same to the others, at the same index and
+// from the same source.
+// ---------------------------------------------------------------------------
+
+type tgParGroup struct {
+	Type   string   // bare struct name
+	Fields []string // parallel fields, first one is the reference
+}
+
+type tgParKind int
+
+const (
+	tgParElem  tgParKind = iota // dst ← same field of some node at some index
+	tgParZero                   // dst ← nil / 0 / T{}
+	tgParSize                   // dst ← nodeSize(e)
+	tgParHash                   // dst ← e.Hash()
+	tgParSet                    // dst ← e (a node value), incl. setChild
+	tgParArith                  // ++ -- += -= or a sum of elements
+	tgParOther
+)
+
+type tgParWrite struct {
+	Field   string
+	Base    string // canonical base ("l", "parent", or "local:allSizes")
+	Idx     string // canonical index
+	Kind    tgParKind
+	SrcBase string // Elem
+	SrcIdx  string // Elem
+	Val     string // Size/Hash/Set: canonical text of e; if e resolves to a reference-field element: "@base[idx]"
+	Op      token.Token
+	Amount  string   // Arith: canonical amount ("@l[l.numKeys]" when it resolves to a size element)
+	Reads   []string // Arith sum: "base[idx]" elements read
+	Pos     token.Pos
+	Text    string
+}
+
+type tgParCopy struct {
+	DstField, SrcField string // group field names when the side is a node field ("" otherwise)
+	DstBase, SrcBase   string
+	DstLo, DstHi       string // "" = open
+	SrcLo, SrcHi       string
+	Pos                token.Pos
+	Text               string
+}
+
+type tgParFn struct {
+	f       *engine.Fn
+	info    *types.Info
+	defs    map[types.Object]ast.Expr // single-definition locals
+	writes  []tgParWrite
+	copies  []tgParCopy
+	operand map[string]bool   // "base[idx]" of reference-field reads into locals / getChild / setChild
+	alias   map[string]string // local slice canonical base -> group field it mirrors
+}
+
+func tgParAnalyse(f *engine.Fn, owner func(*types.Var) string, groups []tgParGroup) *tgParFn {
+	a := &tgParFn{f: f, info: f.Info(), defs: map[types.Object]ast.Expr{}, operand: map[string]bool{}, alias: map[string]string{}}
+	// single-definition locals (incl. type-switch bindings and comma-ok asserts)
+	count := map[types.Object]int{}
+	engine.InspectBody(f, func(n ast.Node) {
+		switch x := n.(type) {
+		case *ast.AssignStmt:
+			for i, l := range x.Lhs {
+				id, ok := l.(*ast.Ident)
+				if !ok {
+					continue
+				}
+				o := a.info.ObjectOf(id)
+				if o == nil {
+					continue
+				}
+				count[o]++
+				if len(x.Lhs) == len(x.Rhs) && (x.Tok == token.DEFINE || x.Tok == token.ASSIGN) {
+					a.defs[o] = x.Rhs[i]
+				} else {
+					count[o] += 10 // tuple assignment / op-assign: not a simple definition
+				}
+			}
+		case *ast.IncDecStmt:
+			if id, ok := x.X.(*ast.Ident); ok {
+				if o := a.info.ObjectOf(id); o != nil {
+					count[o] += 10
+				}
+			}
+		case *ast.RangeStmt:
+			for _, e := range []ast.Expr{x.Key, x.Value} {
+				if id, ok := e.(*ast.Ident); ok {
+					if o := a.info.ObjectOf(id); o != nil {
+						count[o] += 10
+					}
+				}
+			}
+		case *ast.TypeSwitchStmt:
+			if as, ok := x.Assign.(*ast.AssignStmt); ok && len(as.Lhs) == 1 && len(as.Rhs) == 1 {
+				if ta, ok := as.Rhs[0].(*ast.TypeAssertExpr); ok {
+					// each clause has its own implicit object
+					for _, cl := range x.Body.List {
+						if o := a.info.Implicits[cl]; o != nil {
+							count[o]++
+							a.defs[o] = ta.X
+						}
+					}
+				}
+			}
+		}
+	})
+	for o, n := range count {
+		if n != 1 {
+			delete(a.defs, o)
+		}
+	}
+	fieldOf := func(e ast.Expr) (field string, base ast.Expr, ok bool) {
+		se, isSel := ast.Unparen(e).(*ast.SelectorExpr)
+		if !isSel {
+			return "", nil, false
+		}
+		v, isVar := a.info.Uses[se.Sel].(*types.Var)
+		if !isVar || !v.IsField() {
+			return "", nil, false
+		}
+		ow := owner(v)
+		for _, g := range groups {
+			if g.Type != ow {
+				continue
+			}
+			for _, fl := range g.Fields {
+				if fl == v.Name() {
+					return ow + "." + fl, se.X, true
+				}
+			}
+		}
+		return "", nil, false
+	}
+	// element reference X.F[E] (after resolving locals)
+	var elemOf func(e ast.Expr, depth int) (field, base, idx string, ok bool)
+	elemOf = func(e ast.Expr, depth int) (string, string, string, bool) {
+		e = ast.Unparen(e)
+		if depth > 6 {
+			return "", "", "", false
+		}
+		switch x := e.(type) {
+		case *ast.Ident:
+			if d, ok := a.defs[a.info.ObjectOf(x)]; ok {
+				return elemOf(d, depth+1)
+			}
+		case *ast.TypeAssertExpr:
+			return elemOf(x.X, depth+1)
+		case *ast.IndexExpr:
+			if fl, b, ok := fieldOf(x.X); ok {
+				return fl, a.base(b), a.lin(x.Index), true
+			}
+			if id, ok := ast.Unparen(x.X).(*ast.Ident); ok {
+				if fl, ok := a.alias["local:"+id.Name]; ok {
+					return fl, "local:" + id.Name, a.lin(x.Index), true
+				}
+			}
+		}
+		return "", "", "", false
+	}
+	valText := func(e ast.Expr, ref map[string]bool) string {
+		if fl, b, i, ok := elemOf(e, 0); ok && ref[fl] {
+			return "@" + b + "[" + i + "]"
+		}
+		return a.canon(e)
+	}
+	refField := map[string]bool{}
+	for _, g := range groups {
+		refField[g.Type+"."+g.Fields[0]] = true
+	}
+	// pass 1: copies (also discovers local aliases)
+	sliceParts := func(e ast.Expr) (field, base, lo, hi string, ok bool) {
+		e = ast.Unparen(e)
+		for d := 0; d < 4; d++ {
+			if id, isId := e.(*ast.Ident); isId {
+				if def, has := a.defs[a.info.ObjectOf(id)]; has {
+					if _, isSl := ast.Unparen(def).(*ast.SliceExpr); isSl {
+						e = ast.Unparen(def)
+						continue
+					}
+				}
+			}
+			break
+		}
+		lo, hi = "0", ""
+		if sl, isSl := e.(*ast.SliceExpr); isSl {
+			if sl.Low != nil {
+				lo = a.lin(sl.Low)
+			}
+			if sl.High != nil {
+				hi = a.lin(sl.High)
+			}
+			e = ast.Unparen(sl.X)
+		}
+		if fl, b, isF := fieldOf(e); isF {
+			return fl, a.base(b), lo, hi, true
+		}
+		if id, isId := e.(*ast.Ident); isId {
+			return "", "local:" + id.Name, lo, hi, true
+		}
+		return "", "", "", "", false
+	}
+	engine.InspectBody(f, func(n ast.Node) {
+		call, ok := n.(*ast.CallExpr)
+		if !ok || !engine.IsBuiltinCall(a.info, call, "copy") || len(call.Args) != 2 {
+			return
+		}
+		df, db, dlo, dhi, ok1 := sliceParts(call.Args[0])
+		sf, sb, slo, shi, ok2 := sliceParts(call.Args[1])
+		if !ok1 || !ok2 || (df == "" && sf == "") {
+			return
+		}
+		a.copies = append(a.copies, tgParCopy{DstField: df, SrcField: sf, DstBase: db, SrcBase: sb, DstLo: dlo, DstHi: dhi, SrcLo: slo, SrcHi: shi, Pos: call.Pos(), Text: engine.ExprString(call)})
+		if df == "" && sf != "" {
+			a.alias[db] = sf
+		}
+		if sf == "" && df != "" {
+			a.alias[sb] = df
+		}
+	})
+	// pass 2: writes and operand reads
+	classify := func(field string, rhs ast.Expr) tgParWrite {
+		w := tgParWrite{Kind: tgParOther}
+		r := ast.Unparen(rhs)
+		if fl, b, i, ok := elemOf(r, 0); ok && fl == field {
+			w.Kind, w.SrcBase, w.SrcIdx = tgParElem, b, i
+			return w
+		}
+		// resolve a local once for the remaining shapes
+		if id, ok := r.(*ast.Ident); ok {
+			if id.Name == "nil" {
+				w.Kind = tgParZero
+				return w
+			}
+			if d, ok := a.defs[a.info.ObjectOf(id)]; ok {
+				if _, isCall := ast.Unparen(d).(*ast.CallExpr); isCall {
+					r = ast.Unparen(d)
+				}
+			}
+		}
+		switch x := r.(type) {
+		case *ast.BasicLit:
+			if x.Value == "0" {
+				w.Kind = tgParZero
+				return w
+			}
+		case *ast.CompositeLit:
+			if len(x.Elts) == 0 {
+				w.Kind = tgParZero
+				return w
+			}
+		case *ast.CallExpr:
+			if s := f.SiteOf(x); s != nil {
+				switch {
+				case strings.HasSuffix(s.CalleeName(), ".nodeSize") && len(x.Args) == 1:
+					w.Kind, w.Val = tgParSize, valText(x.Args[0], refField)
+					return w
+				case strings.HasSuffix(s.CalleeName(), ".Hash") && len(x.Args) == 0:
+					if se, ok := ast.Unparen(x.Fun).(*ast.SelectorExpr); ok {
+						w.Kind, w.Val = tgParHash, valText(se.X, refField)
+						return w
+					}
+				}
+			}
+		case *ast.BinaryExpr:
+			if x.Op == token.ADD || x.Op == token.SUB {
+				var reads []string
+				all := true
+				for _, opd := range []ast.Expr{x.X, x.Y} {
+					if fl, b, i, ok := elemOf(opd, 0); ok && fl == field {
+						reads = append(reads, b+"["+i+"]")
+					} else {
+						all = false
+					}
+				}
+				if all {
+					w.Kind, w.Op, w.Reads = tgParArith, x.Op, reads
+					return w
+				}
+			}
+		}
+		if refField[field] {
+			w.Kind, w.Val = tgParSet, valText(rhs, refField)
+		}
+		return w
+	}
+	dstOf := func(l ast.Expr) (field, base, idx string, ok bool) {
+		ix, isIx := ast.Unparen(l).(*ast.IndexExpr)
+		if !isIx {
+			return "", "", "", false
+		}
+		if fl, b, isF := fieldOf(ix.X); isF {
+			return fl, a.base(b), a.lin(ix.Index), true
+		}
+		if id, isId := ast.Unparen(ix.X).(*ast.Ident); isId {
+			if fl, has := a.alias["local:"+id.Name]; has {
+				return fl, "local:" + id.Name, a.lin(ix.Index), true
+			}
+		}
+		return "", "", "", false
+	}
+	engine.InspectBody(f, func(n ast.Node) {
+		switch x := n.(type) {
+		case *ast.AssignStmt:
+			for i, l := range x.Lhs {
+				fl, b, ixs, ok := dstOf(l)
+				if !ok {
+					// operand read into a local: v := X.ref[E]
+					if _, isId := l.(*ast.Ident); isId && len(x.Lhs) == len(x.Rhs) {
+						if ix, isIx := ast.Unparen(x.Rhs[i]).(*ast.IndexExpr); isIx {
+							if rf, rb, isF := fieldOf(ix.X); isF && refField[rf] {
+								a.operand[a.base(rb)+"["+a.lin(ix.Index)+"]"] = true
+							}
+						}
+					}
+					continue
+				}
+				var w tgParWrite
+				switch {
+				case x.Tok == token.ADD_ASSIGN || x.Tok == token.SUB_ASSIGN:
+					w = tgParWrite{Kind: tgParArith, Op: x.Tok}
+					if len(x.Rhs) == len(x.Lhs) {
+						if sf, sb, si, ok := elemOf(x.Rhs[i], 0); ok && sf == fl {
+							w.Amount = "@" + sb + "[" + si + "]"
+						} else {
+							w.Amount = a.canon(x.Rhs[i])
+						}
+					}
+				case len(x.Rhs) == len(x.Lhs):
+					w = classify(fl, x.Rhs[i])
+				default:
+					w = tgParWrite{Kind: tgParOther}
+				}
+				w.Field, w.Base, w.Idx, w.Pos, w.Text = fl, b, ixs, x.Pos(), engine.ExprString(l)
+				a.writes = append(a.writes, w)
+			}
+		case *ast.IncDecStmt:
+			if fl, b, ixs, ok := dstOf(x.X); ok {
+				a.writes = append(a.writes, tgParWrite{Field: fl, Base: b, Idx: ixs, Kind: tgParArith, Op: x.Tok, Amount: "1", Pos: x.Pos(), Text: engine.ExprString(x.X)})
+			}
+		case *ast.CallExpr:
+			se, ok := ast.Unparen(x.Fun).(*ast.SelectorExpr)
+			if !ok {
+				return
+			}
+			s := f.SiteOf(x)
+			if s == nil {
+				return
+			}
+			switch {
+			case strings.HasSuffix(s.CalleeName(), ").setChild") && len(x.Args) == 2:
+				b, ixs := a.base(se.X), a.lin(x.Args[0])
+				a.operand[b+"["+ixs+"]"] = true
+				for _, g := range groups {
+					if g.Type == "InnerNode" {
+						a.writes = append(a.writes, tgParWrite{Field: g.Type + "." + g.Fields[0], Base: b, Idx: ixs, Kind: tgParSet, Val: valText(x.Args[1], refField), Pos: x.Pos(), Text: engine.ExprString(x)})
+					}
+				}
+			case strings.HasSuffix(s.CalleeName(), ").getChild") && len(x.Args) == 1:
+				a.operand[a.base(se.X)+"["+a.lin(x.Args[0])+"]"] = true
+			}
+		}
+	})
+	return a
+}
+
+func (a *tgParFn) base(e ast.Expr) string {
+	e = ast.Unparen(e)
+	if id, ok := e.(*ast.Ident); ok {
+		return id.Name
+	}
+	return engine.ExprString(e)
+}
+
+// canon renders a value expression after resolving single-definition locals
+// that are plain aliases (idents, type assertions, selectors).
+func (a *tgParFn) canon(e ast.Expr) string {
+	for d := 0; d < 6; d++ {
+		e = ast.Unparen(e)
+		switch x := e.(type) {
+		case *ast.TypeAssertExpr:
+			e = x.X
+			continue
+		case *ast.Ident:
+			if def, ok := a.defs[a.info.ObjectOf(x)]; ok {
+				switch ast.Unparen(def).(type) {
+				case *ast.Ident, *ast.TypeAssertExpr, *ast.SelectorExpr, *ast.IndexExpr:
+					e = def
+					continue
+				}
+			}
+		}
+		break
+	}
+	return engine.ExprString(e)
+}
+
+// lin normalises an integer index expression to a canonical linear form
+// (sum of symbolic terms plus a constant), resolving single-definition
+// locals, conversions, constants and NumChildren() (= numKeys + 1).
+func (a *tgParFn) lin(e ast.Expr) string {
+	terms := map[string]int{}
+	k := 0
+	var add func(e ast.Expr, sign, depth int)
+	add = func(e ast.Expr, sign, depth int) {
+		e = ast.Unparen(e)
+		if tv, ok := a.info.Types[e]; ok && tv.Value != nil {
+			if v, isInt := constantInt(tv); isInt {
+				k += sign * v
+				return
+			}
+		}
+		if depth > 8 {
+			terms[engine.ExprString(e)] += sign
+			return
+		}
+		switch x := e.(type) {
+		case *ast.Ident:
+			if def, ok := a.defs[a.info.ObjectOf(x)]; ok {
+				if t := a.info.TypeOf(def); t != nil {
+					if b, isBasic := t.Underlying().(*types.Basic); isBasic && b.Info()&types.IsInteger != 0 {
+						add(def, sign, depth+1)
+						return
+					}
+				}
+			}
+			terms[x.Name] += sign
+		case *ast.BinaryExpr:
+			switch x.Op {
+			case token.ADD:
+				add(x.X, sign, depth+1)
+				add(x.Y, sign, depth+1)
+				return
+			case token.SUB:
+				add(x.X, sign, depth+1)
+				add(x.Y, -sign, depth+1)
+				return
+			}
+			terms[engine.ExprString(e)] += sign
+		case *ast.CallExpr:
+			if tv, ok := a.info.Types[x.Fun]; ok && tv.IsType() && len(x.Args) == 1 {
+				add(x.Args[0], sign, depth+1)
+				return
+			}
+			if se, ok := ast.Unparen(x.Fun).(*ast.SelectorExpr); ok && se.Sel.Name == "NumChildren" && len(x.Args) == 0 {
+				terms[a.base(se.X)+".numKeys"] += sign
+				k += sign
+				return
+			}
+			terms[engine.ExprString(e)] += sign
+		case *ast.SelectorExpr:
+			terms[a.base(x.X)+"."+x.Sel.Name] += sign
+		default:
+			terms[engine.ExprString(e)] += sign
+		}
+	}
+	add(e, 1, 0)
+	var names []string
+	for n, c := range terms {
+		if c != 0 {
+			names = append(names, n)
+		}
+	}
+	sort.Strings(names)
+	out := ""
+	for _, n := range names {
+		c := terms[n]
+		switch {
+		case c == 1:
+			out += "+" + n
+		case c == -1:
+			out += "-" + n
+		default:
+			out += fmt.Sprintf("%+d*%s", c, n)
+		}
+	}
+	if k != 0 || out == "" {
+		out += fmt.Sprintf("%+d", k)
+	}
+	return strings.TrimPrefix(out, "+")
+}
+
+func constantInt(tv types.TypeAndValue) (int, bool) {
+	if tv.Value == nil {
+		return 0, false
+	}
+	s := tv.Value.ExactString()
+	n, neg, any := 0, false, false
+	for i, ch := range s {
+		if i == 0 && ch == '-' {
+			neg = true
+			continue
+		}
+		if ch < '0' || ch > '9' {
+			return 0, false
+		}
+		n = n*10 + int(ch-'0')
+		any = true
+	}
+	if neg {
+		n = -n
+	}
+	return n, any
+}
+
+// tgLinAddConst returns the canonical form of lin+k for a canonical lin string
+// whose constant part is the trailing "+n"/"-n" (or the whole string).
+func tgLinSplit(s string) (sym string, k int) {
+	i := strings.LastIndexAny(s, "+-")
+	if i < 0 {
+		// pure constant or pure symbol
+		n, neg, ok := 0, false, len(s) > 0
+		for _, ch := range s {
+			if ch < '0' || ch > '9' {
+				ok = false
+			}
+			n = n*10 + int(ch-'0')
+		}
+		_ = neg
+		if ok {
+			return "", n
+		}
+		return s, 0
+	}
+	tail := s[i+1:]
+	n, ok := 0, len(tail) > 0
+	for _, ch := range tail {
+		if ch < '0' || ch > '9' {
+			ok = false
+			break
+		}
+		n = n*10 + int(ch-'0')
+	}
+	if !ok {
+		return s, 0
+	}
+	if s[i] == '-' {
+		n = -n
+	}
+	return s[:i], n
+}
+
+// tgLinJoin is the inverse of tgLinSplit.
+func tgLinJoin(sym string, k int) string {
+	switch {
+	case sym == "":
+		return fmt.Sprintf("%d", k)
+	case k == 0:
+		return sym
+	default:
+		return fmt.Sprintf("%s%+d", sym, k)
+	}
+}
+
+// tgParMentions: f mentions a field of one of the grouped node types or calls setChild (cheap pre-filter).
+func tgParMentions(f *engine.Fn, owner func(*types.Var) string) bool {
+	found := false
+	info := f.Info()
+	ast.Inspect(f.Body, func(n ast.Node) bool {
+		if found {
+			return false
+		}
+		if id, ok := n.(*ast.Ident); ok {
+			if v, ok := info.Uses[id].(*types.Var); ok && v.IsField() && owner(v) != "" {
+				found = true
+			}
+			if id.Name == "setChild" {
+				found = true
+			}
+		}
+		return true
+	})
+	return found
+}
